@@ -21,6 +21,7 @@ CONSTANTS
   CHAIN = FALSE
   WILD = FALSE
   FIXMODEL = "coded_int"
+  ANYRATIO = FALSE
   BASEMOD = 2
   EMIT = FALSE
 INVARIANT InvShape
